@@ -252,7 +252,9 @@ fn update_best_com(
     resolution: f64,
     directed: bool,
 ) {
-    for (nbr_com, wt) in weights2com {
+    // visit the candidate communities in a fixed order: with hash-map order, exact ties between
+    // candidates are broken differently on every call, so seeded runs differ and tied nodes can swap for ever
+    for (nbr_com, wt) in weights2com.into_iter().sorted_by_key(|(com, _)| *com) {
         let gain = match directed {
             true => {
                 wt - resolution
